@@ -40,6 +40,7 @@ def m4_copy_not_sharing(d):
     rep(d+SF, '''    shared_future() = default;''', '''    shared_future() = default;
     shared_future(shared_future &&) = default;
     shared_future &operator=(shared_future &&) = default;
+    shared_future &operator=(const shared_future &) = default;
     shared_future(const shared_future &o):_ptr(o._ptr?std::make_shared<future_internal>():nullptr) {}''')
 @mut
 def m5_old_inverted_init(d):
